@@ -92,25 +92,12 @@ theorem select_ready_only (chans : Nat → Chan) (cases : List SelCase) (i : Nat
       simp only [hp] at h
       cases o' <;> simp_all <;> (subst h; simp)
 
-/-- what the property asks of `select` on closed channels: errors, not crashes, and the right error -/
-def select_closed_errors : Prop :=
-  ∀ chans cases i o, selectOutcome chans cases i = some o →
-    o ≠ .panic ∧ (∀ ch, cases[i]? = some (.recv ch) → o ≠ .errClosedPush)
-
-/-- today `select` with a send case on a closed channel is a Go panic ("send on closed channel" out of
-`reflect.Select`), and a receive case on a closed channel reports the *push* error -/
-theorem select_closed_witness : ¬ select_closed_errors := by
-  intro h
-  have := h (fun _ => { closed := true }) [.send 0 5] 0 .panic (by decide)
-  exact this.1 rfl
-
-theorem select_closed_recv_witness :
-    selectOutcome (fun _ => { closed := true }) [.recv 0] 0 = some .errClosedPush := by decide
-
-/-- on open channels `select` behaves like the chosen channel operation -/
-theorem select_open_partial (chans : Nat → Chan) (cases : List SelCase) (i : Nat) (o : Out)
-    (hopen : ∀ ch, (chans ch).closed = false) (h : selectOutcome chans cases i = some o) :
-    o ≠ .panic ∧ o ≠ .errClosedPush ∧
+/-- **`select` behaves like the chosen channel operation**, closed channels included: the outcome of the
+chosen case is the outcome of the plain `pop` / `push` on that channel — a value, `ok`, or the
+documented closed-channel error of that direction; never a crash. -/
+theorem select_is_channel_op (chans : Nat → Chan) (cases : List SelCase) (i : Nat) (o : Out)
+    (h : selectOutcome chans cases i = some o) :
+    o ≠ .panic ∧ o ≠ .fatal ∧
     (∀ ch, cases[i]? = some (.recv ch) → o = (pop (chans ch)).1) ∧
     (∀ ch v, cases[i]? = some (.send ch v) → o = (push (chans ch) v).1) := by
   unfold selectOutcome at h
@@ -122,25 +109,30 @@ theorem select_open_partial (chans : Nat → Chan) (cases : List SelCase) (i : N
       rename_i hc _
       refine ⟨by simp, by simp, fun ch hr => ?_, fun ch v hr => ?_⟩ <;> simp [hc] at hr
   · rename_i ch hc
-    have ho := hopen ch
-    simp only [pop] at h ⊢
-    cases hb : (chans ch).buf with
-    | nil => simp [hb, ho] at h
-    | cons x rest =>
-      simp only [hb, Option.some.injEq] at h; subst h
-      refine ⟨by simp, by simp, fun ch' hr => ?_, fun ch' v hr => ?_⟩
-      · simp only [hc, Option.some.injEq, SelCase.recv.injEq] at hr; subst hr; simp [pop, hb]
+    cases hp : pop (chans ch) with
+    | mk o' c' =>
+      simp only [hp] at h
+      have key : o = o' ∧ o ≠ .panic ∧ o ≠ .fatal := by
+        cases o' <;> simp_all <;> (subst h; simp)
+      refine ⟨key.2.1, key.2.2, fun ch' hr => ?_, fun ch' v hr => ?_⟩
+      · simp only [hc, Option.some.injEq, SelCase.recv.injEq] at hr; subst hr; rw [hp]; exact key.1
       · simp [hc] at hr
   · rename_i ch v hc
-    have ho := hopen ch
-    by_cases hlt : (chans ch).buf.length < (chans ch).cap
-    · simp only [push, ho, hlt, Bool.false_eq_true, if_false, if_true, Option.some.injEq] at h; subst h
-      refine ⟨by simp, by simp, fun ch' hr => ?_, fun ch' v' hr => ?_⟩
+    cases hp : push (chans ch) v with
+    | mk o' c' =>
+      simp only [hp] at h
+      have key : o = o' ∧ o ≠ .panic ∧ o ≠ .fatal := by
+        cases o' <;> simp_all <;> (subst h; simp)
+      refine ⟨key.2.1, key.2.2, fun ch' hr => ?_, fun ch' v' hr => ?_⟩
       · simp [hc] at hr
       · simp only [hc, Option.some.injEq, SelCase.send.injEq] at hr
         obtain ⟨rfl, rfl⟩ := hr
-        simp [push, ho, hlt]
-    · simp [push, ho, hlt] at h
+        rw [hp]; exact key.1
+
+/-- before the fixes: a send case on a closed channel crashed, a receive case reported the push error -/
+theorem select_closed_was_wrong :
+    selectOutcomeBeforeFix (fun _ => { closed := true }) [.send 0 5] 0 = some .panic ∧
+    selectOutcomeBeforeFix (fun _ => { closed := true }) [.recv 0] 0 = some .errClosedPush := by decide
 
 /-! ### Mutex and RWMutex -/
 
